@@ -42,6 +42,17 @@ class C03(Prop):
             vk = rng.choice(["rand", "rand", "ties", "borda"])
             V1, V2 = I.gen_valuations(rng, P1, P2, vk)
             yield dict(entry="Irving.scf", family="block", P1=P1, P2=P2, V1=V1, V2=V2, with_profiles=True, zi=bool(i % 2), stages=(kb <= 5))
+        # a chain of rotations whose weights are huge (around 2^53) and nearly cancel: the exact integer decision differs by 1 or 2
+        # from what rounded (binary64) weights would give. Cyclic Latin-square instance, Borda-like values plus two huge entries.
+        for i in range(24 if tier == "quick" else 400):
+            n = [3, 3, 4, 5][i % 4]
+            P1 = [[((j - a) % n) + 1 for j in range(n)] for a in range(n)]
+            P2 = [[((a - j - 1) % n) + 1 for a in range(n)] for j in range(n)]
+            V1 = [[n - r for r in row] for row in P1]; V2 = [[n - r for r in row] for row in P2]
+            big = 2 ** rng.choice([53, 53, 54, 60])
+            V1[0][0] = big + rng.randint(0, 9)                 # man 0's favourite: lost in the first rotation
+            V2[0][1 % n] = big + rng.randint(0, 9)             # woman 0's favourite: gained in the last rotation
+            yield dict(entry="Irving.scf", family="huge_chain", P1=P1, P2=P2, V1=V1, V2=V2, with_profiles=bool(i % 2), zi=bool(i % 3))
         N = 140 if tier == "quick" else 3000
         for i in range(N):
             kind = rng.choice(["rand", "rand", "latin", "block", "noisy"])
